@@ -1,27 +1,176 @@
 /-
-C17 helper lemmas: xml-to-json ∘ json-to-xml on the value type.
+C17 helper lemmas: xml-to-json ∘ json-to-xml on the value type, with the numeric VALUE semantics of
+number literals (`numVal`: mantissa × 10^exponent, compared as rationals by `sameNum`).
 -/
 import EPV.Lemmas.JsonXmlNum
 set_option linter.unusedSimpArgs false
+set_option linter.unusedVariables false
 namespace EPV.Json
 
+/-! ### value semantics of numbers -/
+
+/-- the exact value of a number as `mantissa × 10^exponent` -/
+def numVal : JValue → Option (Int × Int)
+  | .int n => some (n, 0)
+  | .dbl d => some ((if d.neg then -(digitsVal d.digits : Int) else (digitsVal d.digits : Int)),
+                    d.decpt - (d.digits.length : Int))
+  | _ => none
+
+/-- `m₁ × 10^e₁ = m₂ × 10^e₂` as rational numbers (both sides scaled by `10^-min(e₁,e₂)`) -/
+def sameNum (a b : Int × Int) : Prop :=
+  a.1 * 10 ^ (a.2 - min a.2 b.2).toNat = b.1 * 10 ^ (b.2 - min a.2 b.2).toNat
+
+theorem sameNum_refl (a : Int × Int) : sameNum a a := rfl
+
 mutual
-/-- domain of the exact json-to-xml / xml-to-json round trip: strings and keys of XML characters,
-distinct keys in every object, integers below 10^16 in absolute value, doubles in normal form whose
-`repr` is not of the form `ddd.0` -/
-def JValue.x2jOK : JValue → Bool
+/-- same JSON value: same structure, same strings and keys, numbers equal as numbers -/
+inductive SameValue : JValue → JValue → Prop
+  | null : SameValue .null .null
+  | bool (b : Bool) : SameValue (.bool b) (.bool b)
+  | str (s : Str) : SameValue (.str s) (.str s)
+  | num {v w : JValue} {a b : Int × Int} : numVal v = some a → numVal w = some b → sameNum a b → SameValue v w
+  | arr {l l' : List JValue} : SameL l l' → SameValue (.arr l) (.arr l')
+  | obj {m m' : List (Str × JValue)} : SameM m m' → SameValue (.obj m) (.obj m')
+inductive SameL : List JValue → List JValue → Prop
+  | nil : SameL [] []
+  | cons {v w : JValue} {t t' : List JValue} : SameValue v w → SameL t t' → SameL (v :: t) (w :: t')
+inductive SameM : List (Str × JValue) → List (Str × JValue) → Prop
+  | nil : SameM [] []
+  | cons {k : Str} {v w : JValue} {t t' : List (Str × JValue)} :
+      SameValue v w → SameM t t' → SameM ((k, v) :: t) ((k, w) :: t')
+end
+
+theorem digitsVal_append_zeros (l : List Nat) (m : Nat) :
+    digitsVal (l ++ List.replicate m 0) = digitsVal l * 10 ^ m := by
+  induction m with
+  | zero => simp
+  | succ m ih =>
+    rw [List.replicate_succ', ← List.append_assoc, digitsVal_append_single, ih, Nat.pow_succ]
+    simp [Nat.mul_assoc, Nat.mul_comm]
+
+/-! ### what xml-to-json writes for a number and what the reader makes of it -/
+
+def x2jI (rnd : Dec → Dec) (n : Int) : Str := reprStripped (rnd (denInt n))
+def x2jD (rnd : Dec → Dec) (d : Dec) : Str := reprStripped (rnd d)
+
+/-- the digits `ddd000` of a decimal whose repr is `ddd000.0` -/
+def intDigitsOf (d : Dec) : List Nat := d.digits ++ List.replicate (d.decpt - (d.digits.length : Int)).toNat 0
+
+/-- the value the RFC reader assigns to `reprStripped d` -/
+def x2jVal (d : Dec) : JValue :=
+  if stableDbl d then .dbl d
+  else .int (if d.neg then -(digitsVal (intDigitsOf d) : Int) else (digitsVal (intDigitsOf d) : Int))
+
+/-- RFC 8259 reader on an optional minus sign followed by digits without leading zero -/
+theorem parseNum_intDigits (neg : Bool) (L : List Nat) (hne : L ≠ []) (hd : ∀ x ∈ L, x < 10)
+    (hlz : ¬ (1 < L.length ∧ L.head? = some 0)) (rest : Str) (h : numEnd rest) :
+    parseNum ((if neg then [45] else []) ++ digitChars L ++ rest) =
+      some (.int (if neg then -(digitsVal L : Int) else (digitsVal L : Int)), rest) := by
+  have hspan : spanDigits (digitChars L ++ rest) = (L, rest) :=
+    spanDigits_digitChars _ hd rest (headNotDigit_of_numEnd rest h)
+  obtain ⟨d, t, hdt⟩ : ∃ d t, L = d :: t := by
+    cases L with
+    | nil => exact absurd rfl hne
+    | cons d t => exact ⟨d, t, rfl⟩
+  unfold parseNum
+  cases neg
+  · have hs : parseSign (digitChars L ++ rest) = (false, digitChars L ++ rest) := by
+      rw [hdt]
+      simp only [digitChars, List.map_cons, List.cons_append]
+      unfold parseSign
+      split
+      · rename_i heq; simp at heq; omega
+      · rfl
+    simp only [Bool.false_eq_true, if_false, List.nil_append, hs]
+    rw [hspan]
+    simp only [hne, if_false, hlz, parseFrac_end rest h, parseExp_end rest h]
+  · simp only [if_true, List.cons_append, List.nil_append, List.append_assoc, parseSign]
+    rw [hspan]
+    simp only [hne, if_false, hlz, parseFrac_end rest h, parseExp_end rest h]
+
+theorem numOK_reprStripped (d : Dec) (hwf : wfDec d = true) : NumOK (reprStripped d) (x2jVal d) := by
+  by_cases hst : stableDbl d = true
+  · rw [reprStripped_stable d hst]
+    simp only [x2jVal, hst, if_true]
+    exact numOK_reprDouble d hwf
+  · obtain ⟨neg, ds, pt⟩ := d
+    have hwf' := hwf
+    simp only [wfDec, Bool.and_eq_true, Bool.not_eq_true', List.isEmpty_eq_false_iff, List.all_eq_true,
+      decide_eq_true_eq, Bool.or_eq_true, beq_iff_eq, bne_iff_ne, ne_eq] at hwf'
+    obtain ⟨⟨hne, hd⟩, hz⟩ := hwf'
+    have hns : ¬ (pt ≤ -4 ∨ pt > 16 ∨ pt < (ds.length : Int)) := by
+      intro h
+      apply hst
+      simp only [stableDbl, hwf, Bool.true_and, Bool.or_eq_true, decide_eq_true_eq]
+      rcases h with h | h | h
+      · exact Or.inl (Or.inl h)
+      · exact Or.inl (Or.inr h)
+      · exact Or.inr h
+    have hk : (ds.length : Int) ≤ pt := by omega
+    have h16 : pt ≤ 16 := by omega
+    have hrs := reprStripped_integral neg ds pt hne hd hk h16
+    have hLne : ds ++ List.replicate (pt - (ds.length : Int)).toNat 0 ≠ [] := by simp [hne]
+    have hLd : ∀ x ∈ ds ++ List.replicate (pt - (ds.length : Int)).toNat 0, x < 10 :=
+      mem_append_lt10 hd (replicate_lt10 _)
+    have hlz : ¬ (1 < (ds ++ List.replicate (pt - (ds.length : Int)).toNat 0).length ∧
+        (ds ++ List.replicate (pt - (ds.length : Int)).toNat 0).head? = some 0) := by
+      rcases hz with ⟨h1, h2⟩ | ⟨h1, _⟩
+      · subst h1; subst h2; simp
+      · intro ⟨_, h⟩
+        apply h1
+        cases ds with
+        | nil => exact absurd rfl hne
+        | cons a r => simpa using h
+    have hval : x2jVal ⟨neg, ds, pt⟩ = .int (if neg then
+        -(digitsVal (ds ++ List.replicate (pt - (ds.length : Int)).toNat 0) : Int)
+        else (digitsVal (ds ++ List.replicate (pt - (ds.length : Int)).toNat 0) : Int)) := by
+      have : stableDbl ⟨neg, ds, pt⟩ = false := by simpa using hst
+      simp [x2jVal, this, intDigitsOf]
+    rw [hrs, hval]
+    constructor
+    · cases hds : ds ++ List.replicate (pt - (ds.length : Int)).toNat 0 with
+      | nil => exact absurd hds hLne
+      | cons a r =>
+        have ha : a < 10 := hLd a (by rw [hds]; simp)
+        cases neg
+        · exact numStart_head _ (48 + a) (by simp [digitChars]) (Or.inr (by simp [isDigit]; omega))
+        · exact numStart_head _ 45 (by simp) (Or.inl rfl)
+    · intro rest hr
+      exact parseNum_intDigits neg _ hLne hLd hlz rest hr
+
+/-! ### domain and the structural part -/
+
+mutual
+/-- JSON values as json-to-xml sees them: strings and keys of XML characters, distinct keys in every
+object, doubles in normal form (any integers, any doubles) -/
+def JValue.x2jDom : JValue → Bool
   | .str s => s.all isXmlCodepoint
-  | .int n => decide (n.natAbs < 10 ^ 16)
-  | .dbl d => stableDbl d
-  | .arr l => x2jOKL l
-  | .obj m => x2jOKM [] m
+  | .dbl d => wfDec d
+  | .arr l => x2jDomL l
+  | .obj m => x2jDomM [] m
   | _ => true
-def x2jOKL : List JValue → Bool
+def x2jDomL : List JValue → Bool
   | [] => true
-  | v :: t => v.x2jOK && x2jOKL t
-def x2jOKM (seen : List Str) : List (Str × JValue) → Bool
+  | v :: t => v.x2jDom && x2jDomL t
+def x2jDomM (seen : List Str) : List (Str × JValue) → Bool
   | [] => true
-  | (k, v) :: t => k.all isXmlCodepoint && !(seen.contains k) && v.x2jOK && x2jOKM (k :: seen) t
+  | (k, v) :: t => k.all isXmlCodepoint && !(seen.contains k) && v.x2jDom && x2jDomM (k :: seen) t
+end
+
+mutual
+/-- `float()` leaves every number of the value alone: each is (the shortest repr of) a double -/
+def JValue.numsFixed (rnd : Dec → Dec) : JValue → Prop
+  | .int n => rnd (denInt n) = denInt n
+  | .dbl d => rnd d = d
+  | .arr l => numsFixedL rnd l
+  | .obj m => numsFixedM rnd m
+  | _ => True
+def numsFixedL (rnd : Dec → Dec) : List JValue → Prop
+  | [] => True
+  | v :: t => v.numsFixed rnd ∧ numsFixedL rnd t
+def numsFixedM (rnd : Dec → Dec) : List (Str × JValue) → Prop
+  | [] => True
+  | (_, v) :: t => v.numsFixed rnd ∧ numsFixedM rnd t
 end
 
 theorem xmlFallback_id (s : Str) (h : s.all isXmlCodepoint = true) : xmlFallback s = s := by
@@ -32,82 +181,93 @@ theorem xmlFallback_id (s : Str) (h : s.all isXmlCodepoint = true) : xmlFallback
     simp only [List.all_cons, Bool.and_eq_true] at h
     simp [h.1, ih h.2]
 
-theorem xml_ne_zero (s : Str) (h : s.all isXmlCodepoint = true) : ∀ c ∈ s, c ≠ 0 := by
-  intro c hc h0
-  have := List.all_eq_true.mp h c hc
-  subst h0
-  simp [isXmlCodepoint] at this
+theorem renderGL_cons2 (esc : Nat → Str) (nI : Int → Str) (nD : Dec → Str) (v w : JValue) (t : List JValue) :
+    renderGL esc nI nD (v :: w :: t) = renderG esc nI nD v ++ 44 :: renderGL esc nI nD (w :: t) := rfl
 
-theorem joinComma_renderL (esc : Nat → Str) : ∀ l : List JValue,
-    joinComma (l.map (render esc)) ++ [93] = renderL esc l
+theorem renderGM_cons2 (esc : Nat → Str) (nI : Int → Str) (nD : Dec → Str) (k : Str) (v : JValue)
+    (w : Str × JValue) (t : List (Str × JValue)) :
+    renderGM esc nI nD ((k, v) :: w :: t) =
+      34 :: (k.flatMap esc ++ [34, 58]) ++ renderG esc nI nD v ++ 44 :: renderGM esc nI nD (w :: t) := rfl
+
+theorem joinComma_renderGL (esc : Nat → Str) (nI : Int → Str) (nD : Dec → Str) : ∀ l : List JValue,
+    joinComma (l.map (renderG esc nI nD)) ++ [93] = renderGL esc nI nD l
   | [] => rfl
-  | [v] => by simp [joinComma, renderL]
+  | [v] => by simp [joinComma, renderGL]
   | v :: w :: t => by
-    have := joinComma_renderL esc (w :: t)
+    have := joinComma_renderGL esc nI nD (w :: t)
     simp only [List.map_cons] at this
-    rw [renderL_cons2]
+    rw [renderGL_cons2]
     simp only [List.map_cons, joinComma, List.append_assoc, List.cons_append]
     rw [this]
 
-def memberText (esc : Nat → Str) (kv : Str × JValue) : Str :=
-  34 :: (kv.1.flatMap esc ++ [34, 58]) ++ render esc kv.2
+def memberTextG (esc : Nat → Str) (nI : Int → Str) (nD : Dec → Str) (kv : Str × JValue) : Str :=
+  34 :: (kv.1.flatMap esc ++ [34, 58]) ++ renderG esc nI nD kv.2
 
-theorem joinComma_renderM (esc : Nat → Str) : ∀ m : List (Str × JValue),
-    joinComma (m.map (memberText esc)) ++ [125] = renderM esc m
+theorem joinComma_renderGM (esc : Nat → Str) (nI : Int → Str) (nD : Dec → Str) : ∀ m : List (Str × JValue),
+    joinComma (m.map (memberTextG esc nI nD)) ++ [125] = renderGM esc nI nD m
   | [] => rfl
-  | [(k, v)] => by simp [joinComma, renderM, memberText]
+  | [(k, v)] => by simp [joinComma, renderGM, memberTextG]
   | (k, v) :: w :: t => by
-    have := joinComma_renderM esc (w :: t)
+    have := joinComma_renderGM esc nI nD (w :: t)
     simp only [List.map_cons] at this
-    rw [renderM_cons2]
-    simp only [List.map_cons, joinComma, List.append_assoc, List.cons_append, memberText]
+    rw [renderGM_cons2]
+    simp only [List.map_cons, joinComma, List.append_assoc, List.cons_append, memberTextG]
     rw [← this]
-    simp [memberText]
+    simp [memberTextG]
+
+section
+variable (rnd : Dec → Dec)
 
 mutual
-theorem x2j_value : ∀ (v : JValue), v.x2jOK = true → ∀ key : Option Str,
+theorem x2j_value : ∀ (v : JValue), v.x2jDom = true → ∀ key : Option Str,
     ∃ tag text ch, toElem .retain key v = .ok (.mk tag key text ch) ∧
-      elemToJson (.mk tag key text ch) = .ok (render escChar v)
+      elemToJson rnd (.mk tag key text ch) = .ok (renderG escChar (x2jI rnd) (x2jD rnd) v)
   | .null, _, key => ⟨.null, none, [], rfl, rfl⟩
-  | .bool true, _, key => ⟨.boolean, _, [], rfl, by simp [elemToJson, render]⟩
-  | .bool false, _, key => ⟨.boolean, _, [], rfl, by simp [elemToJson, render]⟩
+  | .bool true, _, key => ⟨.boolean, _, [], rfl, by simp [elemToJson, renderG]⟩
+  | .bool false, _, key => ⟨.boolean, _, [], rfl, by simp [elemToJson, renderG]⟩
   | .int n, h, key => by
     refine ⟨.number, some (renderInt n), [], rfl, ?_⟩
-    simp only [elemToJson, Option.getD_some, render]
-    exact numberOfText_int n (by simpa [JValue.x2jOK] using h)
+    have hp : parseNum (renderInt n) = some (.int n, []) := by
+      have := parseNum_renderInt n [] trivial
+      simpa using this
+    simp only [elemToJson, Option.getD_some, renderG, numberOfText, hp, x2jI]
   | .dbl d, h, key => by
     refine ⟨.number, some (reprDouble d), [], rfl, ?_⟩
-    simp only [elemToJson, Option.getD_some, render]
-    exact numberOfText_dbl d (by simpa [JValue.x2jOK] using h)
+    have hp : parseNum (reprDouble d) = some (.dbl d, []) := by
+      have := (numOK_reprDouble d (by simpa [JValue.x2jDom] using h)).2 [] trivial
+      simpa using this
+    simp only [elemToJson, Option.getD_some, renderG, numberOfText, hp, x2jD]
   | .str s, h, key => by
-    have hx : s.all isXmlCodepoint = true := by simpa [JValue.x2jOK] using h
+    have hx : s.all isXmlCodepoint = true := by simpa [JValue.x2jDom] using h
     refine ⟨.string, some s, [], by simp [toElem, xmlFallback_id s hx], ?_⟩
-    simp [elemToJson, render, escape_flatMap]
+    simp [elemToJson, renderG, escape_flatMap]
   | .arr l, h, key => by
-    obtain ⟨es, h1, h2⟩ := x2j_list l (by simpa [JValue.x2jOK] using h)
+    obtain ⟨es, h1, h2⟩ := x2j_list l (by simpa [JValue.x2jDom] using h)
     refine ⟨.array, none, es, by simp [toElem, h1, Except.map], ?_⟩
-    simp only [elemToJson, h2, bind, Except.bind, pure, Except.pure, render]
-    rw [← joinComma_renderL]
+    simp only [elemToJson, h2, bind, Except.bind, pure, Except.pure, renderG]
+    rw [← joinComma_renderGL]
   | .obj m, h, key => by
-    obtain ⟨es, h1, h2⟩ := x2j_members m [] (by simpa [JValue.x2jOK] using h)
+    obtain ⟨es, h1, h2⟩ := x2j_members m [] (by simpa [JValue.x2jDom] using h)
     refine ⟨.map, none, es, by simp [toElem, h1, Except.map], ?_⟩
-    simp only [elemToJson, h2, bind, Except.bind, pure, Except.pure, render]
-    rw [← joinComma_renderM]
-theorem x2j_list : ∀ (l : List JValue), x2jOKL l = true →
-    ∃ es, toElemL .retain l = .ok es ∧ elemsToJson es = .ok (l.map (render escChar))
+    simp only [elemToJson, h2, bind, Except.bind, pure, Except.pure, renderG]
+    rw [← joinComma_renderGM]
+theorem x2j_list : ∀ (l : List JValue), x2jDomL l = true →
+    ∃ es, toElemL .retain l = .ok es ∧
+      elemsToJson rnd es = .ok (l.map (renderG escChar (x2jI rnd) (x2jD rnd)))
   | [], _ => ⟨[], rfl, rfl⟩
   | v :: t, h => by
-    have hh : v.x2jOK = true ∧ x2jOKL t = true := by simpa [x2jOKL] using h
+    have hh : v.x2jDom = true ∧ x2jDomL t = true := by simpa [x2jDomL] using h
     obtain ⟨tag, text, ch, h1, h2⟩ := x2j_value v hh.1 none
     obtain ⟨es, h3, h4⟩ := x2j_list t hh.2
     refine ⟨.mk tag none text ch :: es, by simp [toElemL, h1, h3, bind, Except.bind, pure, Except.pure], ?_⟩
     simp [elemsToJson, h2, h4, bind, Except.bind, pure, Except.pure]
-theorem x2j_members : ∀ (m : List (Str × JValue)) (seen : List Str), x2jOKM seen m = true →
-    ∃ es, toElemM .retain seen m = .ok es ∧ membersToJson seen es = .ok (m.map (memberText escChar))
+theorem x2j_members : ∀ (m : List (Str × JValue)) (seen : List Str), x2jDomM seen m = true →
+    ∃ es, toElemM .retain seen m = .ok es ∧
+      membersToJson rnd seen es = .ok (m.map (memberTextG escChar (x2jI rnd) (x2jD rnd)))
   | [], _, _ => ⟨[], rfl, rfl⟩
   | (k, v) :: t, seen, h => by
-    have hh : ((k.all isXmlCodepoint = true ∧ seen.contains k = false) ∧ v.x2jOK = true) ∧
-        x2jOKM (k :: seen) t = true := by simpa [x2jOKM] using h
+    have hh : ((k.all isXmlCodepoint = true ∧ seen.contains k = false) ∧ v.x2jDom = true) ∧
+        x2jDomM (k :: seen) t = true := by simpa [x2jDomM] using h
     obtain ⟨⟨⟨hk, hs⟩, hv⟩, ht⟩ := hh
     have hks : k ∉ seen := by simpa using hs
     obtain ⟨tag, text, ch, h1, h2⟩ := x2j_value v hv (some k)
@@ -120,51 +280,188 @@ theorem x2j_members : ∀ (m : List (Str × JValue)) (seen : List Str), x2jOKM s
     · simp [toElemM, hks, xmlFallback_id k hk, h1, h3, bind, Except.bind, pure, Except.pure]
     · rw [escape_flatMap] at hun
       simp only [membersToJson, h2, bind, Except.bind, pure, Except.pure,
-        List.map_cons, memberText, escape_flatMap]
+        List.map_cons, memberTextG, escape_flatMap]
       simp only [hun, hks, if_false, h4]
 end
 
-/-- xml-to-json(json-to-xml(v)) is the rendering of `v` with `escape_json_string` as string encoder -/
-theorem x2j_render (v : JValue) (h : v.x2jOK = true) :
-    (jsonToXml v).bind xmlToJson = .ok (render escChar v) := by
-  obtain ⟨tag, text, ch, h1, h2⟩ := x2j_value v h none
+/-- xml-to-json(json-to-xml(v)) is the rendering of `v` with `escape_json_string` as string encoder and the
+stripped `str(float(·))` texts as number tokens -/
+theorem x2j_render (v : JValue) (h : v.x2jDom = true) :
+    (jsonToXml v).bind (xmlToJson rnd) = .ok (renderG escChar (x2jI rnd) (x2jD rnd) v) := by
+  obtain ⟨tag, text, ch, h1, h2⟩ := x2j_value rnd v h none
   simp [jsonToXml, xmlToJson, h1, h2, Except.bind]
 
 mutual
-theorem x2jOK_valid : ∀ v : JValue, v.x2jOK = true → v.validWith isXmlCodepoint stableDbl = true
+theorem renderG_fixed : ∀ v : JValue, v.numsFixed rnd →
+    renderG escChar (x2jI rnd) (x2jD rnd) v = renderG escChar (x2jI id) (x2jD id) v
+  | .null, _ => rfl
+  | .bool true, _ => rfl
+  | .bool false, _ => rfl
+  | .int n, h => by
+    have h' : rnd (denInt n) = denInt n := h
+    simp only [renderG, x2jI, h', id]
+  | .dbl d, h => by
+    have h' : rnd d = d := h
+    simp only [renderG, x2jD, h', id]
+  | .str _, _ => rfl
+  | .arr l, h => by
+    simp only [renderG]
+    rw [renderGL_fixed l h]
+  | .obj m, h => by
+    simp only [renderG]
+    rw [renderGM_fixed m h]
+theorem renderGL_fixed : ∀ l : List JValue, numsFixedL rnd l →
+    renderGL escChar (x2jI rnd) (x2jD rnd) l = renderGL escChar (x2jI id) (x2jD id) l
+  | [], _ => rfl
+  | [v], h => by
+    simp only [renderGL]
+    rw [renderG_fixed v h.1]
+  | v :: w :: t, h => by
+    have := renderGL_fixed (w :: t) h.2
+    simp only [renderGL] at this ⊢
+    rw [renderG_fixed v h.1, this]
+theorem renderGM_fixed : ∀ m : List (Str × JValue), numsFixedM rnd m →
+    renderGM escChar (x2jI rnd) (x2jD rnd) m = renderGM escChar (x2jI id) (x2jD id) m
+  | [], _ => rfl
+  | [(k, v)], h => by
+    simp only [renderGM]
+    rw [renderG_fixed v h.1]
+  | (k, v) :: w :: t, h => by
+    have := renderGM_fixed (w :: t) h.2
+    simp only [renderGM] at this ⊢
+    rw [renderG_fixed v h.1, this]
+end
+
+end
+
+/-! ### validity for the reader, and value preservation -/
+
+mutual
+theorem x2jDom_valid : ∀ v : JValue, v.x2jDom = true → v.validWith isXmlCodepoint wfDec = true
   | .null, _ => rfl
   | .bool _, _ => rfl
   | .int _, _ => rfl
-  | .dbl d, h => by simpa [JValue.x2jOK, JValue.validWith] using h
-  | .str s, h => by simpa [JValue.x2jOK, JValue.validWith] using h
+  | .dbl d, h => by simpa [JValue.x2jDom, JValue.validWith] using h
+  | .str s, h => by simpa [JValue.x2jDom, JValue.validWith] using h
   | .arr l, h => by
     simp only [JValue.validWith]
-    exact x2jOKL_valid l (by simpa [JValue.x2jOK] using h)
+    exact x2jDomL_valid l (by simpa [JValue.x2jDom] using h)
   | .obj m, h => by
     simp only [JValue.validWith]
-    exact x2jOKM_valid m [] (by simpa [JValue.x2jOK] using h)
-theorem x2jOKL_valid : ∀ l : List JValue, x2jOKL l = true → validL isXmlCodepoint stableDbl l = true
+    exact x2jDomM_valid m [] (by simpa [JValue.x2jDom] using h)
+theorem x2jDomL_valid : ∀ l : List JValue, x2jDomL l = true → validL isXmlCodepoint wfDec l = true
   | [], _ => rfl
   | v :: t, h => by
-    have hh : v.x2jOK = true ∧ x2jOKL t = true := by simpa [x2jOKL] using h
-    simp [validL, x2jOK_valid v hh.1, x2jOKL_valid t hh.2]
-theorem x2jOKM_valid : ∀ (m : List (Str × JValue)) (seen : List Str), x2jOKM seen m = true →
-    validM isXmlCodepoint stableDbl m = true
+    have hh : v.x2jDom = true ∧ x2jDomL t = true := by simpa [x2jDomL] using h
+    simp [validL, x2jDom_valid v hh.1, x2jDomL_valid t hh.2]
+theorem x2jDomM_valid : ∀ (m : List (Str × JValue)) (seen : List Str), x2jDomM seen m = true →
+    validM isXmlCodepoint wfDec m = true
   | [], _, _ => rfl
   | (k, v) :: t, seen, h => by
-    have hh : ((k.all isXmlCodepoint = true ∧ seen.contains k = false) ∧ v.x2jOK = true) ∧
-        x2jOKM (k :: seen) t = true := by simpa [x2jOKM] using h
+    have hh : ((k.all isXmlCodepoint = true ∧ seen.contains k = false) ∧ v.x2jDom = true) ∧
+        x2jDomM (k :: seen) t = true := by simpa [x2jDomM] using h
     simp only [validM, Bool.and_eq_true]
-    exact ⟨⟨hh.1.1.1, x2jOK_valid v hh.1.2⟩, x2jOKM_valid t (k :: seen) hh.2⟩
+    exact ⟨⟨hh.1.1.1, x2jDom_valid v hh.1.2⟩, x2jDomM_valid t (k :: seen) hh.2⟩
 end
 
 theorem escOK_escChar_xml (c : Nat) (h : isXmlCodepoint c = true) : EscOK escChar c := by
   apply escOK_escChar
   intro h0; subst h0; simp [isXmlCodepoint] at h
 
-theorem numOK_stable (d : Dec) (h : stableDbl d = true) : NumOK (reprDouble d) (.dbl d) := by
-  apply numOK_reprDouble
-  simp only [stableDbl, Bool.and_eq_true] at h
-  exact h.1
+/-- an integral decimal and the integer it is written as have the same value -/
+theorem sameNum_x2jVal (d : Dec) (hwf : wfDec d = true) :
+    ∃ a b, numVal (.dbl d) = some a ∧ numVal (x2jVal d) = some b ∧ sameNum a b := by
+  by_cases hst : stableDbl d = true
+  · exact ⟨_, _, rfl, by simp [x2jVal, hst, numVal], sameNum_refl _⟩
+  · have hst' : stableDbl d = false := by simpa using hst
+    obtain ⟨neg, ds, pt⟩ := d
+    have hk : (ds.length : Int) ≤ pt := by
+      simp only [stableDbl, hwf, Bool.true_and, Bool.or_eq_false_iff, decide_eq_false_iff_not] at hst'
+      omega
+    refine ⟨((if neg then -(digitsVal ds : Int) else (digitsVal ds : Int)), pt - (ds.length : Int)),
+      ((if neg then -(digitsVal (intDigitsOf ⟨neg, ds, pt⟩) : Int) else (digitsVal (intDigitsOf ⟨neg, ds, pt⟩) : Int)), 0),
+      rfl, by simp [x2jVal, hst', numVal], ?_⟩
+    simp only [sameNum, intDigitsOf]
+    have hmin : min (pt - (ds.length : Int)) 0 = 0 := by omega
+    rw [hmin, digitsVal_append_zeros]
+    simp only [Int.sub_zero, Int.toNat_zero, Int.pow_zero, Int.mul_one]
+    cases neg <;> simp [Int.natCast_mul, Int.natCast_pow, Int.neg_mul]
+
+/-- an integer and what its `float()`-`str()` text is read as have the same value -/
+theorem sameNum_int (n : Int) :
+    ∃ b, numVal (x2jVal (denInt n)) = some b ∧ sameNum (n, 0) b := by
+  obtain ⟨ds, hne, hd, hform, hzero, hnz⟩ := denInt_form n
+  have hval := natDigits_val n.natAbs
+  have hsign : (if decide (n < 0) = true then -((n.natAbs : Nat) : Int) else ((n.natAbs : Nat) : Int)) = n := by
+    by_cases h : n < 0 <;> simp [h] <;> omega
+  rw [hform]
+  by_cases hz : ds = [0]
+  · -- zero
+    have hn : n.natAbs = 0 := by
+      have := hzero hz
+      rw [this] at hval
+      simpa [digitsVal] using hval.symm
+    have hn0 : n = 0 := by omega
+    subst hz; subst hn0
+    exact ⟨(0, 0), by decide, rfl⟩
+  · obtain ⟨happ, hle, hh, hl⟩ := hnz hz
+    simp only [hz, if_false]
+    by_cases hst : stableDbl ⟨decide (n < 0), ds, ((natDigits n.natAbs).length : Int)⟩ = true
+    · refine ⟨((if decide (n < 0) then -(digitsVal ds : Int) else (digitsVal ds : Int)),
+          ((natDigits n.natAbs).length : Int) - (ds.length : Int)), by simp [x2jVal, hst, numVal], ?_⟩
+      simp only [sameNum]
+      have hmin : min (0 : Int) (((natDigits n.natAbs).length : Int) - (ds.length : Int)) = 0 := by omega
+      rw [hmin]
+      simp only [Int.sub_zero, Int.toNat_zero, Int.pow_zero, Int.mul_one]
+      rw [show (((natDigits n.natAbs).length : Int) - (ds.length : Int)).toNat =
+        (natDigits n.natAbs).length - ds.length by omega]
+      have hv : digitsVal ds * 10 ^ ((natDigits n.natAbs).length - ds.length) = n.natAbs := by
+        rw [← digitsVal_append_zeros, happ, hval]
+      generalize (natDigits n.natAbs).length - ds.length = e at hv ⊢
+      have hv' : (digitsVal ds : Int) * 10 ^ e = (n.natAbs : Int) := by
+        rw [← hv]; simp [Int.natCast_mul, Int.natCast_pow]
+      by_cases h : n < 0
+      · simp only [h, decide_true, if_true, Int.neg_mul, hv']; omega
+      · simp only [h, decide_false, Bool.false_eq_true, if_false, hv']; omega
+    · have hst' : stableDbl ⟨decide (n < 0), ds, ((natDigits n.natAbs).length : Int)⟩ = false := by simpa using hst
+      refine ⟨(n, 0), ?_, sameNum_refl _⟩
+      simp only [x2jVal, hst', Bool.false_eq_true, if_false, numVal, intDigitsOf]
+      rw [show (((natDigits n.natAbs).length : Int) - (ds.length : Int)).toNat =
+        (natDigits n.natAbs).length - ds.length by omega, happ, hval, hsign]
+
+mutual
+theorem same_mapNum : ∀ v : JValue, v.x2jDom = true →
+    SameValue v (mapNum (fun n => x2jVal (denInt n)) x2jVal v)
+  | .null, _ => .null
+  | .bool b, _ => .bool b
+  | .str s, _ => .str s
+  | .int n, _ => by
+    obtain ⟨b, hb, hs⟩ := sameNum_int n
+    exact .num (v := .int n) rfl (by simpa [mapNum] using hb) hs
+  | .dbl d, h => by
+    obtain ⟨a, b, ha, hb, hs⟩ := sameNum_x2jVal d (by simpa [JValue.x2jDom] using h)
+    exact .num ha (by simpa [mapNum] using hb) hs
+  | .arr l, h => by
+    simp only [mapNum]
+    exact .arr (same_mapNumL l (by simpa [JValue.x2jDom] using h))
+  | .obj m, h => by
+    simp only [mapNum]
+    exact .obj (same_mapNumM m [] (by simpa [JValue.x2jDom] using h))
+theorem same_mapNumL : ∀ l : List JValue, x2jDomL l = true →
+    SameL l (mapNumL (fun n => x2jVal (denInt n)) x2jVal l)
+  | [], _ => .nil
+  | v :: t, h => by
+    have hh : v.x2jDom = true ∧ x2jDomL t = true := by simpa [x2jDomL] using h
+    simp only [mapNumL]
+    exact .cons (same_mapNum v hh.1) (same_mapNumL t hh.2)
+theorem same_mapNumM : ∀ (m : List (Str × JValue)) (seen : List Str), x2jDomM seen m = true →
+    SameM m (mapNumM (fun n => x2jVal (denInt n)) x2jVal m)
+  | [], _, _ => .nil
+  | (k, v) :: t, seen, h => by
+    have hh : ((k.all isXmlCodepoint = true ∧ seen.contains k = false) ∧ v.x2jDom = true) ∧
+        x2jDomM (k :: seen) t = true := by simpa [x2jDomM] using h
+    simp only [mapNumM]
+    exact .cons (same_mapNum v hh.1.2) (same_mapNumM t (k :: seen) hh.2)
+end
 
 end EPV.Json
